@@ -38,6 +38,7 @@ class Driver:
         self.buf = b""
         self.nreq = 0
         self.restarts = 0
+        self.crashes = []
 
     def start(self):
         env = dict(os.environ)
@@ -123,7 +124,11 @@ class Driver:
         """files: list of (path or None, source). Paths are given absolute under srcdir
         so that the pipeline reports them relative to it (as the CLI does)."""
         hdr = "T %d %d %d %d" % (self.nreq, 1 if annotate else 0, seed, len(files))
-        return self.request(hdr, [srcdir] + self._files_blobs(files), timeout)
+        r = self.request(hdr, [srcdir] + self._files_blobs(files), timeout)
+        if r.get("v") in ("panic", "abort", "timeout"):
+            # never silent: every check reports pipeline crashes met in its space (they are C03's verdict)
+            self.crashes.append((r["v"], str(r.get("loc") or r.get("signal") or ""), files[0][1][:400]))
+        return r
 
     def transpile1(self, src, annotate=False, seed=0, name="f.mamba", timeout=20.0):
         return self.transpile([("/proj/src/" + name, src)], annotate, seed, "/proj/src", timeout)
@@ -181,6 +186,10 @@ def _worker_run(chunk):
             res = {"machinery": "%s: %s\n%s" % (type(e).__name__, e, traceback.format_exc()[-1500:])}
         res["case"] = case if (res.get("fail") or res.get("machinery")) else None
         res["cid"] = case.get("id")
+        if drv.crashes:
+            res["crashes"] = drv.crashes[:5]
+            res["ncrashes"] = len(drv.crashes)
+            drv.crashes = []
         out.append(res)
     return out
 
